@@ -12,6 +12,14 @@ use std::str::FromStr;
 use anyhow::Result;
 use unic_ucd_category::GeneralCategory;
 
+#[cfg(gosyn_verif)]
+pub static VERIF_BAD_UTF8: std::sync::atomic::AtomicUsize = std::sync::atomic::AtomicUsize::new(0);
+
+#[cfg(gosyn_verif)]
+pub(crate) fn verif_char_class(c: char) -> (bool, bool, bool) {
+    (is_letter(c), is_unicode_digit(c), c.is_whitespace())
+}
+
 #[derive(Default)]
 pub struct Scanner {
     pos: usize, // index as chars
@@ -56,6 +64,11 @@ impl Scanner {
             chars,
             ..Default::default()
         })
+    }
+
+    #[cfg(gosyn_verif)]
+    pub(crate) fn verif_lines(&self) -> Vec<usize> {
+        self.lines.clone()
     }
 
     pub(crate) fn path(&self) -> PathBuf {
@@ -111,6 +124,10 @@ impl Scanner {
         let start = self.indices[self.pos];
         let end = (start + n).min(self.source.len());
         let part = &self.source.as_bytes()[start..end];
+        #[cfg(gosyn_verif)]
+        if std::str::from_utf8(part).is_err() {
+            VERIF_BAD_UTF8.fetch_add(1, std::sync::atomic::Ordering::Relaxed);
+        }
         unsafe { std::str::from_utf8_unchecked(part) }
     }
 
